@@ -38,6 +38,10 @@ FINDINGS = {
     "C06-set-error-entry-duplicated": "a swamp rejected by Set gets two response entries (the error entry and an empty one)",
     "C06-unstorable-key-acknowledged": ("Set / Increment / Uint32SlicePush acknowledge a record under the empty key or a key of 65536 bytes and more "
                                         "(documented since the gateway key validation: InvalidArgument for the whole request, nothing created)"),
+    "C06-patch-summons-missing-swamp": ("PatchTreasures without CreateIfNotExist on a swamp that does not exist summons it and stores nothing: "
+                                        "an empty swamp stays live (IsSwampExist true, Count 0) although an existing swamp is never empty"),
+    "C06-float-set-compares-by-value": ("the float setters decide 'same value' with ==: a Set of -0.0 over +0.0 (or the reverse) answers NOTHING_CHANGED "
+                                        "and the stored sign stays; a Set of the NaN that is already stored answers UPDATED. Nothing else is affected."),
     "C06-nan-condition-passes": ("IncrementFloat32/64 evaluate an ordering condition through its complement (`if cur <= ref { fail }` for "
                                  "'greater than'): with a NaN on either side no complement holds, so >, >=, <, <= all count as satisfied "
                                  "and the increment is applied (== and != behave as stated)"),
